@@ -88,8 +88,15 @@ impl TimeZone {
                         let std_end_timestamp = altt.local_std_end_timestamp(timestamp);
                         let dst_end_timestamp = altt.local_dst_end_timestamp(timestamp);
 
-                        let std_end_unix = std_end_timestamp - altt.std.utoff as i64;
-                        let dst_end_unix = dst_end_timestamp - altt.dst.utoff as i64;
+                        let (std_end_unix, dst_end_unix) =
+                            match (std_end_timestamp, dst_end_timestamp) {
+                                (Some(std_end), Some(dst_end)) => (
+                                    std_end - altt.std.utoff as i64,
+                                    dst_end - altt.dst.utoff as i64,
+                                ),
+                                // The rule can't be evaluated for this timestamp
+                                _ => return altt.std.clone(),
+                            };
 
                         match timestamp {
                             // std end is before dst end
@@ -117,7 +124,7 @@ impl TimeZone {
                         }
                     }
                 },
-                None => self.local_time_types[0].clone(),
+                None => self.local_time_type(0),
             },
             _ => {
                 let mut local_time_type_index = 0;
@@ -127,8 +134,16 @@ impl TimeZone {
                         break;
                     }
                 }
-                self.local_time_types[local_time_type_index].clone()
+                self.local_time_type(local_time_type_index)
             }
+        }
+    }
+
+    /// Returns the local time type with the given index. `from_tzif` makes sure that every index is valid
+    fn local_time_type(&self, index: usize) -> LocalTimeType {
+        match self.local_time_types.get(index) {
+            Some(local_time_type) => local_time_type.clone(),
+            None => LocalTimeType::new(0, false),
         }
     }
 }
